@@ -237,6 +237,10 @@ static int c06_share_main (int argc, char **argv) {
     }
     for (int kd = 0; kd < 3; kd++) add_share ("cyclic", "container", 1, "itself", kd);
     for (int kd = 0; kd < 4; kd++) add_share ("outlive", "callback", 1, "destructed-creator", kd);
+    /* zombie: after destruct(this_object()) the still running function calls call_out (by name / funptr), add_action (by name / funptr,
+     * carry-over args), input_to, get_char, set_heart_beat, set_living_name, enable_commands, move_object, bind, a plain call, a bound
+     * funptr, call_other, filter with extra args, clone, call_out+remove_call_out, notify_fail(function), all with ref-counted arguments */
+    for (int kd = 0; kd < 18; kd++) add_share ("zombie", "arguments", 1, "self-destructed-caller", kd);
   }
   vm_elem_alarm_s = 600;
   fprintf (stderr, HNAME ": part=share scenarios=%ld\n", nshare);
